@@ -700,7 +700,8 @@ impl Part for WriteCalls {
             },
         }
         for with_drops in [false, true] {
-            let o = crate::props::c19::drive(c, with_drops);
+            // a message adaptor does not gather: the stand-in transport is not vectored
+            let o = crate::props::c19::drive_on(c, with_drops, false);
             if let Some(p) = o.panic {
                 fail!("c20:panic", "scripted session panicked: {p}");
             }
